@@ -309,18 +309,22 @@ for az in (("x", "y"), ("rho", "phi")):
                                 bad.append(f"{syn}: ({oname}).{rd} on a Momentum{dim}D array with raw fields {names} = {got}; with geometric fields {geo} it is {want}")
                     # three-step: two chained operations (one that changes values or drops a dimension, then a conversion / re-embedding with a
                     # keyword), then read: nothing stale may win over the fresh coordinate or the keyword value
-                    if MODE in ("all", "chain") and syn in ("px", "pz", "E", "mass"):
+                    if MODE in ("all", "chain", "nochain") and syn in ("px", "pz", "E", "mass") + (() if MODE == "nochain" else ()) or MODE == "nochain" and syn in ("e", "energy", "M", "m", "pt", "py"):
                         P1 = [("v * 3", lambda v: v * 3), ("v.scale(-1.5)", lambda v: v.scale(-1.5)), ("v.rotateZ(0.3)", lambda v: v.rotateZ(0.3))]
                         if dim == 4:
                             P1 += [("v.boostX(0.3)", lambda v: v.boostX(0.3)), ("v.to_Vector3D()", lambda v: v.to_Vector3D()), ("v.to_xyzt()", lambda v: v.to_xyzt())]
                         if dim >= 3:
                             P1 += [("v.to_Vector2D()", lambda v: v.to_Vector2D())]
+                        if MODE == "nochain":        # C14's quick tier: a LIGHT version of the chains (the full ones run in C04 and in C14's thorough tier)
+                            P1 = [P1[0]] + ([P1[3]] if dim == 4 else [])
                         P2 = [("to_Vector4D(mass=0.5)", lambda v: v.to_Vector4D(mass=0.5)), ("to_Vector4D(tau=0.25)", lambda v: v.to_Vector4D(tau=0.25)),
                               ("to_Vector4D(E=30.0)", lambda v: v.to_Vector4D(E=30.0)), ("to_Vector4D(t=31.0)", lambda v: v.to_Vector4D(t=31.0)),
                               ("to_Vector3D(pz=0.75)", lambda v: v.to_Vector3D(pz=0.75)), ("to_Vector3D(eta=0.3)", lambda v: v.to_Vector3D(eta=0.3)),
                               ("to_ptphietamass()", lambda v: v.to_ptphietamass()), ("to_pxpypzmass()", lambda v: v.to_pxpypzmass()),
                               ("to_pxpypzenergy()", lambda v: v.to_pxpypzenergy()), ("to_rhophietatau()", lambda v: v.to_rhophietatau()), ("to_xyzt()", lambda v: v.to_xyzt()),
                               ("to_ptphietamass(mass=0.5)", lambda v: v.to_ptphietamass(mass=0.5)), ("to_pxpypzenergy(energy=30.0)", lambda v: v.to_pxpypzenergy(energy=30.0))]
+                        if MODE == "nochain":
+                            P2 = [p_ for p_ in P2 if p_[0] in ("to_ptphietamass()", "to_rhophietatau()", "to_xyzt()", "to_pxpypzenergy()", "to_Vector4D(mass=0.5)")]
                         for o1, f1 in P1:
                             try:
                                 r1, a1 = f1(ref), f1(arr)
